@@ -2086,6 +2086,21 @@ def gen_listings():
         else:
             acc.append("store " + re.sub(r"\s+", "", (m.group(1) or m.group(2) or "")))
     o.append(f"def cDetectAccesses : List String := {lean_strs(acc)}")
+    # every mention of the detection cache in the C library OUTSIDE get_cpu_features(): its declaration, and - in the testing build
+    # only - nothing else (a second writer makes the dispatch decision depend on what other hashers did)
+    outside = []
+    for rel in sorted(os.listdir(os.path.join(REPO, "c"))):
+        if not (rel.endswith(".c") or rel.endswith(".h") or rel.endswith(".cpp")):
+            continue
+        t = strip_comments(src("c/" + rel))
+        if rel == "blake3_dispatch.c":
+            m0 = re.search(r"get_cpu_features\s*\([^)]*\)\s*\{", t)
+            if m0:
+                b1 = match_brace(t, t.index("{", m0.end() - 1))
+                t = t[:m0.start()] + " " * (b1 - m0.start()) + t[b1:]
+        for m in re.finditer(r"[^\n]*\bg_cpu_features\b[^\n]*", t):
+            outside.append(rel + ": " + re.sub(r"\s+", " ", m.group(0)).strip())
+    o.append(f"def cDetectCacheMentionsOutside : List String := {lean_strs([x.replace(chr(34), chr(39)) for x in outside])}")
     # C08: the Join implementations and the join site in compress_subtree_wide (who gets which slice)
     jtxt = strip_comments(src("src/join.rs"))
     bodies = {}
